@@ -3,6 +3,7 @@
 package c07
 
 import (
+	"encoding/json"
 	"fmt"
 	"sort"
 	"sync"
@@ -30,6 +31,7 @@ const TreeSet = "treeset"
 //	rrand  N removals of live keys picked by the LCG seeded by K
 //	drain  remove live keys in ascending order until N remain
 //	drainR remove live keys in descending order until N remain
+//	load   FromJSON of the object {K+i*S: i} (i < N): the tree is rebuilt by the loader (trees and TreeMap)
 
 var (
 	ratioMu sync.Mutex
@@ -45,6 +47,7 @@ func noteRatio(kind string, r float64) {
 }
 
 type tree struct {
+	load   func([]byte) error
 	kind   string
 	put    func(k, v int)
 	rem    func(k int)
@@ -71,10 +74,15 @@ func build(c kvh.Case) *tree {
 	switch {
 	case b.RBT != nil:
 		t.shape = func() (shape.Stats, error) { return shape.RBT(b.RBT, false) }
+		t.load = b.RBT.FromJSON
 	case b.AVL != nil:
 		t.shape = func() (shape.Stats, error) { return shape.AVL(b.AVL, false) }
+		t.load = b.AVL.FromJSON
 	case b.BT != nil:
 		t.shape = func() (shape.Stats, error) { return shape.BTree(b.BT, c.Order, false) }
+		t.load = b.BT.FromJSON
+	case b.TreeMap != nil:
+		t.load = b.TreeMap.FromJSON
 	}
 	return t
 }
@@ -239,6 +247,31 @@ func run(c kvh.Case) (flags, pbt.Info, error) {
 				es := live.Sorted()
 				ok = atomic("rem", es[int(g.next()%uint64(len(es)))].K, 0)
 			}
+		case "load":
+			if t.load == nil {
+				break
+			}
+			label("w:load")
+			doc := map[int]int{}
+			for i := 0; i < op.N; i++ {
+				doc[op.K+i*max(op.S, 1)] = i
+			}
+			data, _ := json.Marshal(doc)
+			if err := t.load(data); err != nil {
+				return fl, info, fmt.Errorf("%s: FromJSON of a well-formed document failed: %v", c.Describe(), err)
+			}
+			live.Clear()
+			for k, v := range doc {
+				live.Put(k, v)
+			}
+			step++
+			if t.size() != live.Len() {
+				return fl, info, fmt.Errorf("%s step %d: Size()=%d after FromJSON of %d keys, expected %d", c.Describe(), step, t.size(), op.N, live.Len())
+			}
+			if live.Len() > fl.maxN {
+				fl.maxN = live.Len()
+			}
+			ok = checkShape(true)
 		case "drain", "drainR":
 			label("w:drain")
 			for ok && live.Len() > op.N {
@@ -305,7 +338,7 @@ func gen(kind string, big bool) func(t *rapid.T) kvh.Case {
 			base := rapid.IntRange(0, 50).Draw(t, "base")
 			// the first op builds, the second removes (when there is one): most
 			// workloads then grow a tree and shrink it again; later ops are free
-			w := dom.Weighted(t, "w", 1, 5, 4, 3, 3, 4, 3, 3, 2, 2)
+			w := dom.Weighted(t, "w", 1, 5, 4, 3, 3, 4, 3, 3, 2, 2, 3)
 			if i == 0 && (w == 0 || w > 4) {
 				w = 1 + (w % 4)
 			}
@@ -336,6 +369,8 @@ func gen(kind string, big bool) func(t *rapid.T) kvh.Case {
 				op = kvh.Op{O: "remrun", K: base, N: ln, S: []int{1, 2, -1}[rapid.IntRange(0, 2).Draw(t, "s")]}
 			case 9:
 				op = kvh.Op{O: "clear"}
+			case 10:
+				op = kvh.Op{O: "load", K: base, N: rapid.IntRange(0, 60).Draw(t, "loadn"), S: rapid.IntRange(1, 3).Draw(t, "loads")}
 			}
 			c.Ops = append(c.Ops, op)
 		}
